@@ -14,6 +14,11 @@ def anchors():
             "T8": ("T8.v", t8_kwargs.gen),
             "T5eof": ("T5eof.v", t5_eof.gen),
             "T4": ("T4.v", t4_scaler.gen),
+            "T1": ("T1.v", __import__(__package__ + ".t1_validators", fromlist=["gen"]).gen),
+            "T5pop": ("T5pop.v", __import__(__package__ + ".t5_pop", fromlist=["gen"]).gen),
+            "T5whiten": ("T5whiten.v", __import__(__package__ + ".t5_whiten", fromlist=["gen"]).gen),
+            "T6san": ("T6san.v", __import__(__package__ + ".t6_sanitizer", fromlist=["gen"]).gen),
+            "T2": ("T2.v", __import__(__package__ + ".t2_io", fromlist=["gen"]).gen), "T7ser": ("T7ser.v", __import__(__package__ + ".t7_serial", fromlist=["gen"]).gen),
             "T5rot": ("T5rot.v", t5_rot.gen)}
 
 
